@@ -84,6 +84,19 @@ theorem firstAcceptedIn_measure (P : Measure Ω) [IsProbabilityMeasure P] {A B :
   rw [ENNReal.tsum_mul_right, ENNReal.tsum_geometric, prob_compl_eq_one_sub hA,
     ENNReal.sub_sub_cancel ENNReal.one_ne_top prob_le_one, div_eq_mul_inv, mul_comm]
 
+/-- the acceptance probability is the sum over the outputs -/
+theorem accept_measure_eq_tsum (P : Measure Ω) {A : Set Ω} (hA : MeasurableSet A)
+    (out : Ω → ℤ) (hout : ∀ y, MeasurableSet (out ⁻¹' {y})) : P A = ∑' z, P (A ∩ out ⁻¹' {z}) := by
+  have hAu : A = ⋃ z, A ∩ out ⁻¹' {z} := by
+    ext ω; simp
+  conv_lhs => rw [hAu]
+  rw [measure_iUnion ?_ (fun z => hA.inter (hout z))]
+  intro a b hab
+  rw [Function.onFun, Set.disjoint_left]
+  rintro ω ⟨_, h1⟩ ⟨_, h2⟩
+  simp only [mem_preimage, mem_singleton_iff] at h1 h2
+  exact hab (h1.symm.trans h2)
+
 /-- if the one-pass probability of "accepted with output `y`" is `c · w y`, the first accepted output is `y` with
 probability `w y / Σ_z w z` -/
 theorem firstAccepted_proportional (P : Measure Ω) [IsProbabilityMeasure P] {A : Set Ω} (hA : MeasurableSet A)
@@ -91,17 +104,21 @@ theorem firstAccepted_proportional (P : Measure Ω) [IsProbabilityMeasure P] {A 
     (w : ℤ → ENNReal) (h : ∀ y, P (A ∩ out ⁻¹' {y}) = c * w y) (y : ℤ) :
     Measure.infinitePi (fun _ : ℕ => P) (firstAcceptedIn A (out ⁻¹' {y})) = w y / ∑' z, w z := by
   rw [firstAcceptedIn_measure P hA (hout y), h y]
-  have hAu : A = ⋃ z, A ∩ out ⁻¹' {z} := by
-    ext ω; simp
   have hPA : P A = c * ∑' z, w z := by
-    conv_lhs => rw [hAu]
-    rw [measure_iUnion ?_ (fun z => hA.inter (hout z))]
-    · simp_rw [h]; rw [ENNReal.tsum_mul_left]
-    · intro a b hab
-      rw [Function.onFun, Set.disjoint_left]
-      rintro ω ⟨_, h1⟩ ⟨_, h2⟩
-      simp only [mem_preimage, mem_singleton_iff] at h1 h2
-      exact hab (h1.symm.trans h2)
+    rw [accept_measure_eq_tsum P hA out hout]
+    simp_rw [h]; rw [ENNReal.tsum_mul_left]
   rw [hPA, ENNReal.mul_div_mul_left _ _ hc0 hct]
+
+/-- … and the normaliser `Σ_z w z` is finite (so `w y / Σ_z w z` is a genuine probability, summing to 1 when some
+`w z ≠ 0`) -/
+theorem proportional_normaliser_finite (P : Measure Ω) [IsProbabilityMeasure P] {A : Set Ω} (hA : MeasurableSet A)
+    (out : Ω → ℤ) (hout : ∀ y, MeasurableSet (out ⁻¹' {y})) (c : ENNReal) (hc0 : c ≠ 0)
+    (w : ℤ → ENNReal) (h : ∀ y, P (A ∩ out ⁻¹' {y}) = c * w y) : ∑' z, w z ≠ ⊤ := by
+  intro htop
+  have hPA : P A = c * ∑' z, w z := by
+    rw [accept_measure_eq_tsum P hA out hout]
+    simp_rw [h]; rw [ENNReal.tsum_mul_left]
+  rw [htop, ENNReal.mul_top hc0] at hPA
+  exact (measure_ne_top P A) hPA
 
 end DPL.Smp
